@@ -146,7 +146,11 @@ def c12_scripts(seed, n):
 def relabel_all(line, j):
     """give every object of history j the id j (terminal, screen, canvas)"""
     t = line.split()
-    if t[0] in ("T", "K", "P"):
+    if t[0] == "O" and t[1] == "8":
+        t[1] = "8%d" % j              # a history's own manipulator object
+    elif t[0] == "T" and len(t) > 3 and t[2] == "use" and t[3] == "8":
+        t[1], t[3] = str(j), "8%d" % j
+    elif t[0] in ("T", "K", "P"):
         t[1] = str(j)
     elif t[0] == "S":
         t[1] = str(j)
